@@ -187,6 +187,20 @@ Example C19_origin_other_default_port :
 Proof. exact origin_other_default_port_differs. Qed.
 Print Assumptions C19_origin_other_default_port.
 
+(* The provenance request: for EVERY URL string with a non-empty path, appending ".prov"
+   leaves scheme, userinfo and host as they are (and "http://host" + ".prov" is the reason
+   for the non-empty path: that would be the host "host.prov"). *)
+Theorem C19_prov_suffix_same_origin :
+  forall s sc us h p, go_split s = SOk sc us h p -> p <> "" ->
+    exists p', go_split (s ++ ".prov") = SOk sc us h p' /\ p' <> "".
+Proof. exact go_split_prov. Qed.
+Print Assumptions C19_prov_suffix_same_origin.
+
+Example C19_prov_suffix_needs_path :
+  go_split "http://host" = SOk "http" None "host" "" /\ go_split ("http://host" ++ ".prov") = SOk "http" None "host.prov" "".
+Proof. exact go_split_prov_needs_path. Qed.
+Print Assumptions C19_prov_suffix_needs_path.
+
 (* (2) every entry point, in terms of the property's origin (same hypotheses about library
    code as C19_paths_scope): a request carries a repository entry's own pair only if that
    entry has pass-credentials on or the request is on the origin of the entry's URL; the
